@@ -4,11 +4,14 @@
 package main
 
 import (
+	"time"
+
 	"verif/core"
 	"verif/tv"
 )
 
 func main() {
+	core.ThoroughBudget = 150 * time.Minute
 	run := core.Start("C01", "translation_validation")
 	if run.Replay != "" {
 		tv.Replay(run, tv.Backend())
